@@ -254,7 +254,7 @@ def find_edges_table(F, rep, rule="C03.3"):
 
 # =========================================================================== B.4 pruning
 
-ITEM_STATES = ("none", "ext-nolink", "ext-link-invalid", "ext-link-valid")
+ITEM_STATES = ("none", "ext-nolink", "ext-link-invalid", "ext-link-valid", "ext-link-self")
 
 
 class ActiveItemOracles(Oracles):
@@ -275,6 +275,7 @@ class ActiveItemOracles(Oracles):
 class ValidExtsOracles(ActiveItemOracles):
     def __init__(self, script, active, background, valid_given):
         ActiveItemOracles.__init__(self, script, active, background, ITEM_STATES if valid_given else ITEM_STATES[:2] + ITEM_STATES[3:])
+        # "ext-link-self": the probe resolves to the node itself (a self-link: tandem repeat / hairpin), which is valid
         self.valid_given = valid_given
 
     def on_call(self, it, fn, args, dest_ty, term, caller):
@@ -314,8 +315,9 @@ class ValidExtsOracles(ActiveItemOracles):
                 raise Undecided("find_link on an unknown probe")
             self.observe("find_link", (item, sd))
             st = self.state(*item)
-            if st in ("ext-link-invalid", "ext-link-valid"):
-                return some(Tup([Int(64, False, bits=[TOP] * 64, tags=frozenset({"target-%d-%d" % item})), dir_v(LEFT), mkbool(False)]))
+            if st in ("ext-link-invalid", "ext-link-valid", "ext-link-self"):
+                tg = {"target-%d-%d" % item} | ({"self-id"} if st == "ext-link-self" else set())
+                return some(Tup([Int(64, False, bits=[TOP] * 64, tags=frozenset(tg)), dir_v(LEFT), mkbool(False)]))
             return none()
         if ("BitSet" in path or "bit_set" in path) and name == "contains":
             item = None
@@ -326,8 +328,18 @@ class ValidExtsOracles(ActiveItemOracles):
             if item is None:
                 raise Undecided("validity asked for an unknown node id")
             self.observe("valid-asked", item)
-            return mkbool(self.state(*item) == "ext-link-valid")
+            return mkbool(self.state(*item) in ("ext-link-valid", "ext-link-self"))
         return NotImplemented
+
+    def unknown_compare(self, it, op, a, b):
+        # comparisons between node ids: the node being pruned vs. the node a probe resolved to
+        if op in ("Eq", "Ne"):
+            ta, tb = tags_of(a), tags_of(b)
+            for x, y in ((ta, tb), (tb, ta)):
+                if "node" in x and any(t.startswith("target-") for t in y):
+                    same = "self-id" in y
+                    return same if op == "Eq" else not same
+        return None
 
 
 def exts_byte(items_kept):
@@ -366,7 +378,7 @@ def get_valid_exts_table(F, rep, rule="C03.4"):
                         problems.append((str(out), row, out[0] == "inconclusive"))
                         continue
                     ev = out.fields[0] if isinstance(out, Adt) and out.name == EXTS else None
-                    kept = [it_ for it_ in items if (a.get("item") if it_ == active else background) == "ext-link-valid"]
+                    kept = [it_ for it_ in items if (a.get("item") if it_ == active else background) in ("ext-link-valid", "ext-link-self")]
                     want = exts_byte(kept)
                     if not (isinstance(ev, Int) and ev.is_conc() and ev.val == want):
                         problems.append(("result %s; an extension is kept exactly when it was present, its probe k-mer resolves to a node and that node is "
@@ -390,6 +402,9 @@ def get_valid_exts_table(F, rep, rule="C03.4"):
 
 
 def fix_exts_table(F, rep, rule="C03.4"):
+    """fix_exts(mask) replaces the extensions of EVERY node by get_valid_exts(node, mask) — for no mask and for masks that keep all, some
+    or none of 3 nodes"""
+    from .dt import SetV, bitset_model
     try:
         body = pub_fn(F, "fix_exts")
     except Unsupported as e:
@@ -404,31 +419,54 @@ def fix_exts_table(F, rep, rule="C03.4"):
                 return Int(64, False, val=3)
             if name == "get_valid_exts":
                 i = args[1].val if isinstance(args[1], Int) and args[1].is_conc() else None
-                self.observe("gve", (i, "valid-set" in tags_of(recv(it, args[2])) or (isinstance(args[2], Adt) and args[2].variant == 1)))
+                m = args[2]
+                passed = None
+                if isinstance(m, Adt) and m.variant == 1:
+                    sv = recv(it, m.fields[0])
+                    passed = tuple(sorted(sv.s)) if isinstance(sv, SetV) else "?"
+                self.observe("gve", (i, passed))
                 return Adt(EXTS, 0, [Int(8, False, val=100 + (i if i is not None else 50))])
+            r_ = bitset_model(it, fn, args, dest_ty, term, caller)
+            if r_ is not NotImplemented:
+                return r_
             return NotImplemented
-    h = H()
-    it = Interp(F, False, h)
-    base = struct_of(F, "graph::BaseGraph", {
-        "sequences": Opaque("PackedDnaStringSet", {"sequences"}), "exts": VecV([Adt(EXTS, 0, [Int(8, False, val=i)]) for i in range(3)]),
-        "data": Opaque("Vec<D>", {"data-vec"}), "stranded": mkbool(False)})
-    g = struct_of(F, "graph::DebruijnGraph", {"base": base, "left_order": Opaque("idx", {"left_order"}), "right_order": Opaque("idx", {"right_order"})})
-    cell = Cell(g, "graph")
-    try:
-        it.call_body(body, [Ref(cell), Adt(OPTION, 1, [Ref(Cell(Opaque("bit_set::BitSet", {"valid-set"})))])])
-    except (Undecided, Unsupported, Diverge) as e:
-        rep.inconclusive(rule, "fix_exts", "fix_exts: %s" % e)
-        return
-    rep.evaluations += 1
     names = [f["name"] for f in F.adts["graph::DebruijnGraph"]["variants"][0]["fields"]]
     bnames = [f["name"] for f in F.adts["graph::BaseGraph"]["variants"][0]["fields"]]
-    ex = cell.v.fields[names.index("base")].fields[bnames.index("exts")]
-    got = [e.fields[0].val for e in ex.elems] if isinstance(ex, VecV) else None
-    if got == [100, 101, 102] and all(v for (_, v) in h.obs.get("gve", [])):
-        rep.holds(rule, "fix_exts", "fix_exts replaces every node's extensions by get_valid_exts of that node, with the caller's validity set")
+    problems, inc = [], []
+    masks = [None, (0, 1, 2), (0, 2), (1,), ()]
+    for mask in masks:
+        h = H()
+        it = Interp(F, False, h)
+        base = struct_of(F, "graph::BaseGraph", {
+            "sequences": Opaque("PackedDnaStringSet", {"sequences"}), "exts": VecV([Adt(EXTS, 0, [Int(8, False, val=i)]) for i in range(3)]),
+            "data": Opaque("Vec<D>", {"data-vec"}), "stranded": mkbool(False)})
+        g = struct_of(F, "graph::DebruijnGraph", {"base": base, "left_order": Opaque("idx", {"left_order"}), "right_order": Opaque("idx", {"right_order"})})
+        cell = Cell(g, "graph")
+        marg = Adt(OPTION, 0, []) if mask is None else Adt(OPTION, 1, [Ref(Cell(SetV(mask), "mask"))])
+        rep.evaluations += 1
+        try:
+            it.call_body(body, [Ref(cell), marg])
+        except (Undecided, Unsupported) as e:
+            inc.append("mask %s: %s" % (mask, e))
+            continue
+        except Diverge as e:
+            problems.append("mask %s: fix_exts diverges: %s" % (mask, e))
+            continue
+        ex = cell.v.fields[names.index("base")].fields[bnames.index("exts")]
+        got = [e.fields[0].val for e in ex.elems] if isinstance(ex, VecV) else None
+        if got != [100, 101, 102]:
+            stale = [i for i in range(3) if got and got[i] == i]
+            problems.append("with validity mask %s the stored extensions are %s: node(s) %s keep their old extensions (every node's extensions must be replaced by "
+                            "get_valid_exts(node, mask) — a censored node keeps links to absent / censored k-mers otherwise)" % (mask, got, stale))
+        for (i, passed) in h.obs.get("gve", []):
+            if passed != (None if mask is None else tuple(mask)):
+                problems.append("get_valid_exts(%s) is called with validity set %s, the caller passed %s" % (i, passed, mask))
+    if problems:
+        rep.violated(rule, "fix_exts", "fix_exts: %s" % problems[0], site=F.site(body, body["line"]), witness={"kind": "lockstep", "count": len(problems)})
+    elif inc:
+        rep.inconclusive(rule, "fix_exts", "fix_exts: %s" % inc[0])
     else:
-        rep.violated(rule, "fix_exts", "fix_exts stores %s (expected the pruned extensions of node i at index i) / validity set passed: %s" % (got, h.obs.get("gve")),
-                     site=F.site(body, body["line"]), witness={"kind": "lockstep"})
+        rep.holds(rule, "fix_exts", "fix_exts replaces every node's extensions by get_valid_exts of that node with the caller's validity set (masks: none, all, {0,2}, {1}, {})")
 
 
 CENS_STATES = ("none", "ext-valid", "ext-censored", "ext-elsewhere")
@@ -688,6 +726,13 @@ class MaxPathOracles(Oracles):
         return None
 
 
+def how_of_walk(h, w):
+    for (ident, d, how, ww) in h.pushed[1:]:
+        if ww == w:
+            return how
+    return None
+
+
 def max_path_table(F, rep, rule="C03.7"):
     try:
         body = pub_fn(F, "max_path")
@@ -743,6 +788,22 @@ def max_path_table(F, rep, rule="C03.7"):
                     problems.append(("an element found on the forward walk is prepended", row, False))
                 if w == 1 and how != "push_front":
                     problems.append(("an element found on the backward walk is appended", row, False))
+            # continuation of the walk: after stepping through an edge that arrives on side `ed` of node X, the next edges are those of X on
+            # the opposite side (otherwise the path leaves a node through the side it entered: consecutive path nodes are not joined by facing edges)
+            per_walk = {}
+            for (ident, d, how, w) in h.pushed[1:]:
+                per_walk.setdefault(w, []).append((ident, d))
+            for (w, st, nid, d) in h.edge_calls:
+                if st >= 1 and w in per_walk and st - 1 < len(per_walk[w]):
+                    ident, pd = per_walk[w][st - 1]
+                    # the pushed orientation is the arrival side on the forward walk and its flip on the backward walk
+                    ed = pd if how_of_walk(h, w) == "push_back" else 1 - pd
+                    if nid != ident:
+                        problems.append(("after stepping to node %s the walk continues from node %s" % (ident, nid), row, False))
+                    elif d != 1 - ed:
+                        problems.append(("the %s walk entered node %s on its %s side and continues through the same side (it must leave through the %s side): "
+                                         "consecutive nodes of the returned path are then not joined by facing edges" % (
+                                             "forward" if how_of_walk(h, w) == "push_back" else "backward", ident, dir_name(ed), dir_name(1 - ed)), row, False))
             # every pushed id was inserted into the used set
             ins = h.obs.get("insert", [])
             for (ident, d, how, w) in h.pushed:
@@ -837,6 +898,47 @@ def sequence_of_path_table(F, rep, rule="C03.8"):
 
 # =========================================================================== index construction (C03.2 / C19.1)
 
+def size_thresholds(F, body, lo=4, hi=1 << 17):
+    """integer constants in (lo, hi] that occur in the crate-local code reachable from `body` (closures included): sizes at which the
+    code may switch behaviour (block sizes, cut-offs).  Tables that script a collection size use them to pick sizes beyond 0..3."""
+    seen = set()
+    st = [body["path"]]
+    out = set()
+
+    def walk_consts(j):
+        if isinstance(j, dict):
+            if "int" in j and isinstance(j["int"], int) and lo < j["int"] <= hi and str(j.get("ty", "")) in ("usize", "u16", "u32", "u64", "i32", "i64", "isize"):
+                out.add(j["int"])
+            for v in j.values():
+                walk_consts(v)
+        elif isinstance(j, list):
+            for v in j:
+                walk_consts(v)
+    while st:
+        p = st.pop()
+        if p in seen:
+            continue
+        seen.add(p)
+        b = F.fns.get(p)
+        if not b or b.get("derived"):
+            continue
+        for bb in b["blocks"]:
+            for stt in bb["s"]:
+                if not stt.get("x"):
+                    walk_consts(stt)
+                if stt.get("k") == "assign" and stt["rv"].get("k") == "agg" and stt["rv"].get("ak") == "closure":
+                    st.append(stt["rv"].get("closure"))
+            t = bb["t"]
+            if not t.get("x"):
+                walk_consts({k: v for k, v in t.items() if k != "f"})
+            if t.get("k") == "call" and "const" in t["f"] and "fn" in t["f"]["const"]:
+                fr = t["f"]["const"]["fn"]
+                for q in (fr.get("rpath"), fr.get("path")):
+                    if q and q in F.fns and q not in seen:
+                        st.append(q)
+    return sorted(out)
+
+
 def finish_tables(F, rep, rule="C19.1"):
     """finish and finish_serial build the same two indices: keys = first / last k-mers of node i in index order, values = i —
     for graphs of 0, 1, 2 and 3 nodes, whatever the nodes' extensions are (every outcome of a query on them is explored)"""
@@ -903,9 +1005,14 @@ def finish_tables(F, rep, rule="C19.1"):
         bad = False
         inc = None
         rows = 0
-        for n in (0, 1, 2, 3):
-            def run(h):
+        # graph sizes: 0..3, plus one past every size constant the code reachable from this function mentions (block sizes, cut-offs)
+        big = [c + 1 for c in size_thresholds(F, body)]
+        sizes = [0, 1, 2, 3] + big[:(3 if rep.tier == "thorough" else 2)]
+        for n in sizes:
+            def run(h, n=n):
                 it = Interp(F, False, h)
+                if n > 1000:
+                    it.max_steps = 400 * n + 1000000
                 me = struct_of(F, "graph::BaseGraph", {"sequences": Opaque("PackedDnaStringSet", {"sequences"}), "exts": Opaque("Vec", {"exts-vec"}),
                                                         "data": Opaque("Vec", {"data-vec"}), "stranded": mkbool(False)})
                 return it.call_body(body, [me])
@@ -938,8 +1045,10 @@ def finish_tables(F, rep, rule="C19.1"):
                                      "%s on a graph of %d node(s)%s: the %s index is built from keys %s and values %s; required: the %s of node i paired with i, for "
                                      "every i = 0..n — a node end that is not indexed is never found by find_link" % (
                                          fname, n, (" with " + ", ".join("%s = %s" % kv for kv in sorted(a_.items()))) if a_ else "", nm,
-                                         b_[1] if b_ else None, b_[2] if b_ else None, "first k-mer" if nm == "left_order" else "last k-mer"),
-                                     site=F.site(body, body["line"]), witness={"kind": "index-identity", "got": repr(b_), "n": n})
+                                         (str(b_[1][:4])[:-1] + (", …]" if len(b_[1]) > 4 else "]")) if b_ and b_[1] is not None else None,
+                                         (str(b_[2][:4])[:-1] + (", …]" if len(b_[2]) > 4 else "]")) if b_ and b_[2] is not None else None,
+                                         "first k-mer" if nm == "left_order" else "last k-mer"),
+                                     site=F.site(body, body["line"]), witness={"kind": "index-identity", "got": repr(b_)[:600], "n": n})
                         bad = True
                 if bad:
                     break
@@ -951,8 +1060,8 @@ def finish_tables(F, rep, rule="C19.1"):
         if inc:
             rep.inconclusive(rule, fname, "%s: %s" % (fname, inc))
             continue
-        rep.holds(rule, fname, "%s: for graphs of 0..3 nodes and every answer to a query on the nodes' extensions (%d rows): left index = {first k-mer of node i -> i}, "
-                  "right index = {last k-mer of node i -> i}" % (fname, rows))
+        rep.holds(rule, fname, "%s: for graphs of %s nodes and every answer to a query on the nodes' extensions (%d rows): left index = {first k-mer of node i -> i}, "
+                  "right index = {last k-mer of node i -> i}" % (fname, sizes, rows))
         results[fname] = per_n
     if len(results) == 2:
         a, b = results["finish"], results["finish_serial"]
@@ -1049,6 +1158,8 @@ def combine_table(F, rep, rule="C04.1"):
                 s_ = recv(it, args[0]) if args else None
                 if name == "len":
                     return Int(64, False, val=s_.info.get("n", 0))
+                if name == "is_empty":
+                    return mkbool(s_.info.get("n", 0) == 0)
                 if name == "get":
                     i = args[1].val if isinstance(args[1], Int) and args[1].is_conc() else None
                     return Opaque("DnaStringSlice", {"slice"}, {"of": (s_.info.get("g"), i)})
@@ -1063,11 +1174,12 @@ def combine_table(F, rep, rule="C04.1"):
         return v.info if isinstance(v, Opaque) else {}
     problems = []
     inc = []
-    for flags in ((False, False), (True, True), (True, False), (False, True), (True,), ()):
+    # (strandedness flags, node counts): graphs of equal strandedness incl. empty shard graphs; mixed inputs (non-empty)
+    for flags, sizes in (((False, False), [2, 1]), ((True, True), [2, 1]), ((True, False), [2, 1]), ((False, True), [2, 1]), ((True,), [2]), ((), []),
+                         ((True, True), [2, 0]), ((True, True), [0, 1]), ((True, True, True), [1, 0, 1]), ((False, False), [0, 2]), ((True,), [0])):
         h = H()
         it = Interp(F, False, h)
         graphs = []
-        sizes = [2, 1][:len(flags)]
         for gi, st in enumerate(flags):
             graphs.append(struct_of(F, "graph::BaseGraph", {
                 "sequences": Opaque(PS, {"seqs"}, {"g": gi, "n": sizes[gi]}),
@@ -1108,7 +1220,7 @@ def combine_table(F, rep, rule="C04.1"):
             problems.append("payloads of the combined graph are %s — not the concatenation of the inputs' payloads in node order" % got_d)
         want_st = all(flags)
         if not (isinstance(st, Int) and st.is_conc() and bool(st.val) == want_st):
-            problems.append("strandedness of the combination of %s is %r" % (list(flags), st))
+            problems.append("strandedness of the combination of graphs with flags %s and node counts %s is %r" % (list(flags), sizes, st))
     if problems:
         rep.violated(rule, "combine", "BaseGraph::combine: %s" % problems[0], site=F.site(body, body["line"]), witness={"kind": "lockstep", "count": len(problems)})
     elif inc:
